@@ -1220,6 +1220,11 @@ func (e *Engine) Execute(tr core.Trace, ctx *core.Ctx) {
 	}
 	if res.err != nil && strings.Contains(res.err.Error(), "not enough lines to render") {
 		ctx.Probe("render_error_returned")
+	} else if res.err != nil && strings.Contains(res.err.Error(), "element printing failed") {
+		// a view that was granted its declared height could not be drawn:
+		// whatever it declares, it did not write it
+		ctx.Fail("C24", "render-fixed", "render-error/"+core.MsgClass(res.err.Error()), x.ev,
+			"rendering failed although the terminal (%d rows) grants the view's declared minimum: %v", s.rows, res.err)
 	}
 	if len(x.tr.done) > 0 {
 		switch ctx.Prop {
